@@ -171,6 +171,12 @@ class Repo:
             self._index(m)
         for m in list(self.modules.values()) + list(self.clients.values()):
             self._expand_star(m, set())
+        self.flatten_log = []
+        try:
+            from .flatten import flatten_repo
+            flatten_repo(self)
+        except Exception as e:  # pragma: no cover - flattening is an aid, never a verdict
+            self.flatten_log = ["flattening failed: %r" % (e,)]
 
     # ------------------------------------------------------------------ loading
     def _load(self, path, client=False):
